@@ -84,8 +84,12 @@ class SphinxRenderer(DocutilsRenderer):
         path_dest, *_path_ids = destination.split("#", maxsplit=1)
         path_id = _path_ids[0] if _path_ids else None
         explicit = (token.info != "auto") and (len(token.children or []) > 0)
-        _, abs_path = self.sphinx_env.relfn2path(path_dest, self.sphinx_env.docname)
-        docname = self.sphinx_env.path2doc(abs_path)
+        try:
+            _, abs_path = self.sphinx_env.relfn2path(path_dest, self.sphinx_env.docname)
+            docname = self.sphinx_env.path2doc(abs_path)
+        except ValueError:
+            # e.g. the destination contains a null byte
+            abs_path, docname = path_dest, None
         if not docname:
             self.create_warning(
                 f"Could not find document: {abs_path}",
@@ -110,6 +114,15 @@ class SphinxRenderer(DocutilsRenderer):
         if destination.startswith("path:"):
             destination = destination[5:]
         destination = self._handle_relative_docs(destination)
+        if "\x00" in destination:
+            # can never be a file path (and the download collector would raise on it)
+            self.create_warning(
+                f"Could not find file: {destination!r}",
+                MystWarnings.XREF_MISSING,
+                line=token_line(token, 0),
+                append_to=self.current_node,
+            )
+            return self.render_link_url(token)
         explicit = (token.info != "auto") and (len(token.children or []) > 0)
         wrap_node = addnodes.download_reference(
             refdomain=None,
@@ -139,8 +152,14 @@ class SphinxRenderer(DocutilsRenderer):
 
         potential_path: None | Path = None
         if self.sphinx_env.srcdir:  # not set in some test situations
-            _, path_str = self.sphinx_env.relfn2path(path_dest, self.sphinx_env.docname)
-            potential_path = Path(path_str)
+            try:
+                _, path_str = self.sphinx_env.relfn2path(
+                    path_dest, self.sphinx_env.docname
+                )
+            except ValueError:
+                pass  # e.g. the destination contains a null byte
+            else:
+                potential_path = Path(path_str)
 
         is_file = False
         if potential_path:
